@@ -818,7 +818,7 @@ func (c *Cursor) Get() (interface{}, interface{}, bool) {
 	}
 	pe := c.path[len(c.path)-1]
 	node := pe.node
-	if pe.linkIndex >= len(node.Key) {
+	if pe.linkIndex < 0 || pe.linkIndex >= len(node.Key) {
 		return nil, nil, false
 	}
 	return node.Key[pe.linkIndex], node.Value[pe.linkIndex], true
